@@ -16,6 +16,7 @@
    source with go/ast on every run (Facts_C20.v) and `footprint_race_free fp = true` re-proved there. *)
 From Coq Require Import List Arith Bool NArith.
 From IocVerif Require Import Model.SyncMap Proofs.SyncMapProofs Model.Conc Proofs.RaceProofs.
+From IocVerif Require Import Proofs.RangeProofs.
 From IocVerif Require Import Model.ScanCheck Proofs.ScanCheckProofs.
 Import ListNotations.
 
@@ -117,6 +118,45 @@ Proof.
   - unfold range_inv. rewrite Hst. exact I.
   - split; [assumption|]. unfold range_inv in Hinv. rewrite Hend in Hinv. exact Hinv.
 Qed.
+
+(* ... and what a Range of the step model DOES guarantee under every interleaving (Proofs/RangeProofs.v), for all
+   programs (Range, LoadOrStoreFn in either form, any number of threads) and all schedules — the contract sync.Map
+   documents and the two conditions `scan_check` below evaluates on recorded histories:
+   PROVENANCE: every reported pair (k, v) was the mapping of k at some instant of this Range call — a reachable
+   configuration c1 at which the thread loaded k, after which it issued no further invocation; *)
+Theorem c20_range_provenance : forall rep progs c tr t ops acc,
+  sreach rep progs c tr -> sthr c t = mkThread (TRes ORange (RList acc)) ops ->
+  forall k v, get acc k = Some v ->
+  exists c1 tr1 b1, sreach rep progs c1 tr1 /\ tr = tr1 ++ (t, EVisit k (Some v)) :: b1
+    /\ get (sm c1) k = Some v /\ (forall o, ~ In (t, EInv o) b1).
+Proof. intros rep progs c tr t ops acc Hr Hst k v Hg. exact (range_provenance rep progs c tr t ops acc Hr Hst k v Hg). Qed.
+
+(* COMPLETENESS: every key present when the call began (configuration c0, thread invoked and nothing executed yet) has
+   been visited, and what the Range reports for it — a value, or nothing — is its mapping at the instant of that visit.
+   In particular a key that nobody touched during the call is reported with its value. *)
+Theorem c20_range_completeness : forall rep progs c tr t ops acc,
+  sreach rep progs c tr -> sthr c t = mkThread (TRes ORange (RList acc)) ops ->
+  exists c0 tr0 b, sreach rep progs c0 tr0 /\ tr = tr0 ++ b /\ tstate (sthr c0 t) = TInv ORange
+    /\ (forall o, ~ In (t, EInv o) b)
+    /\ forall k, get (sm c0) k <> None ->
+         exists x c1 tr1 b1, sreach rep progs c1 tr1 /\ tr = tr1 ++ (t, EVisit k x) :: b1
+           /\ get (sm c1) k = x /\ (forall o, ~ In (t, EInv o) b1) /\ get acc k = x.
+Proof.
+  intros rep progs c tr t ops acc Hr Hst.
+  destruct (range_completeness rep progs c tr t ops acc Hr Hst) as [c0 [[tr0 [b [H0 [Htr [Hs Hb]]]]] Hk]].
+  exists c0, tr0, b. repeat split; try assumption.
+  intros k Hk0. destruct (Hk k Hk0) as [x [[c1 [tr1 [b1 [H1 [Ht1 [Hg Hb1]]]]]] Ha]].
+  exists x, c1, tr1, b1. repeat split; assumption.
+Qed.
+
+(* non-vacuity: the execution of c20_range_refuted, stopped when the Range's result is determined: the Range began on
+   the empty map and reports [(2, 1)] *)
+Example c20_range_example :
+  match srun true (sinit range_progs) (firstn 12 range_sched) with
+  | Some (c, _) => tstate (sthr c 0) = TRes ORange (RList [(2, 1)])
+  | None => False
+  end.
+Proof. vm_compute. reflexivity. Qed.
 
 (* What a Range / ToArray / ForEach owes although it is not a snapshot (Model/ScanCheck.v): per reported pair
    PROVENANCE (the pair is the mapping of its key at some instant of the scan: written by an operation invoked before
